@@ -182,6 +182,7 @@ PROPS = {
   'timeout_quick': 900,
  },
  'C05': {
+  'timeout_thorough': 6000,
   'level_text': 'Coq theorems (closed under the global context). Bytes (stream machine; for the executable model with its reference inflater NO premise, for any other inflater the prefix-determinacy contract): a stream that decodes without an error reports NO error on any of its prefixes - the run '
                 'ends for lack of input, ready to go on - and however the input then grows (any list of increments) the observation (events, image bytes, metadata, end) is that of decoding the complete input in one go '
                 '(corollaries of the whole-stream delivery theorem of C04). Reader cursor model with the visible input prefix a parameter of every call: a row call that runs out of input changes nothing; finish() is resumable; a '
